@@ -9,6 +9,13 @@ HERE = os.path.dirname(os.path.dirname(os.path.abspath(__file__)))
 
 def main():
     meta = json.load(open(os.path.join(HERE, "tools", "checks_meta.json")))
+    import glob
+    for f in sorted(glob.glob(os.path.join(HERE, "tools", "meta_c*.json"))):
+        pid = os.path.basename(f)[5:-5].upper()
+        if pid in meta.get("hold", []):
+            continue
+        m = json.load(open(f))
+        meta["checks"][pid] = {"text": m["text"], "note": m["note"], "technique": m.get("technique", "explicit-state bounded model checking of the implementation against a reference model")}
     props = [json.loads(l) for l in open(os.path.join(HERE, "properties.jsonl"))]
     ids = [p["id"] for p in props]
     checks = []
